@@ -496,7 +496,7 @@ pub fn parse_case(lines: &[String]) -> Option<LedgerCase> {
 
 pub const OFFSETS: [i32; 17] = [-45, -31, -30, -29, -15, -2, -1, 0, 0, 1, 2, 15, 29, 30, 31, 32, 60];
 
-fn mk_tx(day: i32, af: &Affiliate, act: TxActionSpecifics) -> Tx {
+pub fn mk_tx(day: i32, af: &Affiliate, act: TxActionSpecifics) -> Tx {
     Tx {
         security: "FOO".to_string(),
         trade_date: date_from_jd(day),
@@ -508,7 +508,7 @@ fn mk_tx(day: i32, af: &Affiliate, act: TxActionSpecifics) -> Tx {
     }
 }
 
-fn buy(sh: Decimal, px: Decimal) -> TxActionSpecifics {
+pub fn buy(sh: Decimal, px: Decimal) -> TxActionSpecifics {
     TxActionSpecifics::Buy(BuyTxSpecifics {
         shares: pos(sh),
         amount_per_share: gez(px),
@@ -518,7 +518,7 @@ fn buy(sh: Decimal, px: Decimal) -> TxActionSpecifics {
     })
 }
 
-fn sell(sh: Decimal, px: Decimal, sfl: Option<SFLInput>) -> TxActionSpecifics {
+pub fn sell(sh: Decimal, px: Decimal, sfl: Option<SFLInput>) -> TxActionSpecifics {
     TxActionSpecifics::Sell(SellTxSpecifics {
         shares: pos(sh),
         amount_per_share: gez(px),
